@@ -64,6 +64,10 @@ CHECKS = {
   "held on the observed projects: cut-into-files twins give the same verdict and catalog; every INCLUDE name up to the length bound over the dangerous alphabet (exhaustive under the bound) behaves as the statement says inside a scratch tree with decoy files at every ancestor level; missing/directory/empty/ENOTDIR/ELOOP/cyclic targets give diagnostics; strace shows which files are really opened",
   "trusts strace as the outside observer of file access and the renderer's cut extraction",
   "runtime monitoring: metamorphic relation between two executions, bounded-exhaustive name enumeration end to end, syscall trace (strace) as event log checked offline"),
+ "C10": ("exploration",
+  "held on the observed permutations: all orders of the top-level blocks for small documents and sampled orders beyond give the same verdict, the same entry contents (matched by key) and collections ordered like the declarations",
+  "trusts the model projector only for the expected key order; contents are compared between real executions",
+  "runtime monitoring: metamorphic relation between executions of permuted documents (content equality modulo the permutation, order equality with the permutation)"),
 }
 
 def main():
